@@ -33,7 +33,10 @@ Pool ==
      R("{ i { x } il { x __typename } u { __typename } e }", "", "-", "-", "-"),            \* 16
      R("query($a: Int, $b: Int) { a }", "", "-", "-", "-"),                                 \* 17 two unused variables
      R("{ __type(name: \"A\") { interfaces { name } fields { name } } }", "", "-", "-", "fields_order"),   \* 18
-     R("FULL_INTROSPECTION", "", "-", "-", "types_order")                                   \* 19 the standard introspection query
+     R("FULL_INTROSPECTION", "", "-", "-", "types_order"),                                  \* 19 the standard introspection query
+     R("{ uo { __typename } }", "", "-", "uostar", "-"),                                    \* 20 a value every member's IsTypeOf accepts
+     R("{ __type(name: \"UO\") { possibleTypes { name } } }", "", "-", "-", "possible_order"), \* 21 introspection of that union
+     R("{ itl { __typename x } it { x } }", "", "-", "-", "-")                              \* 22 interface resolved through IsTypeOf
   >>
 
 VARIABLE hist
